@@ -73,6 +73,24 @@ def delete_one_variant(draw, sc, r0):
     return {'kind': 'delete_one', 'year': sc['year'], 'forms': sc['forms'], 'inputs': inputs, 'prompt': None, 'schedule': None, 'deleted': gone}
 
 
+def delete_one_per_kind(draw, sc, r0):
+    from hx import catalog
+    base_read = sorted({key for _, reads, _ in r0.trace.attempts for kind, key, o, _v in reads if kind == 'i'} & set(sc['inputs']))
+    by_kind = {}
+    for key in base_read:
+        inp = r0.solver._input_map.get(key)
+        k = catalog.input_kind(inp) if inp is not None else '?'
+        if k == 'enum' and getattr(inp, 'allow_empty', False):
+            k = 'enum_optional'
+        by_kind.setdefault(k, []).append(key)
+    out = []
+    for kind in sorted(by_kind):
+        gone = draw(st.sampled_from(by_kind[kind]))
+        out.append({'kind': 'delete_one', 'year': sc['year'], 'forms': sc['forms'], 'inputs': {k_: t for k_, t in sc['inputs'].items() if k_ != gone},
+                    'prompt': None, 'schedule': None, 'deleted': gone})
+    return out
+
+
 def deleted_needed_check(ctx, sc, r0, v, r):
     if v['kind'] == 'delete_one' and v.get('deleted'):
         k = v['deleted']
@@ -108,6 +126,13 @@ def shard_real(ctx, k, payload):
         v = realcamp.make_variant(data.draw, sc, KINDS)
         if data.draw(st.integers(0, 4)) == 0 and r0.exc is None:
             v = delete_one_variant(data.draw, sc, r0)
+        if data.draw(st.integers(0, 5)) == 0 and r0.exc is None:
+            # one removed input of EVERY kind the return read (text, amount, count, yes/no, choice, optional choice, SSN ...)
+            for v_ in delete_one_per_kind(data.draw, sc, r0):
+                r_ = realcamp.run_variant(v_)
+                ctx.case()
+                realcamp.check_variant(ctx, ['C01'], v_, r_)
+                deleted_needed_check(ctx, sc, r0, v_, r_)
         r = realcamp.run_variant(v)
         ctx.case()
         labels, c = realcamp.check_variant(ctx, ['C01'], v, r)
